@@ -267,7 +267,11 @@ class MCMCProp(Prop):
             return {"exc": type(e).__name__, "msg": "constructor: " + str(e)[:200], "where": []}
         obs["limits_used"] = [mc.convergence_limit if isinstance(mc.convergence_limit, int) else repr(mc.convergence_limit), mc.search_limit]
         final = None
-        with patched(mod.MarkovChainMonteCarloRewiring, "swap_condition", wrapped), installed(sem):
+        import contextlib
+        hook = hasattr(mod.MarkovChainMonteCarloRewiring, "swap_condition")   # where proposals are observed
+        obs["hook_missing"] = not hook
+        with (patched(mod.MarkovChainMonteCarloRewiring, "swap_condition", wrapped) if hook else contextlib.nullcontext()), \
+                installed(sem):
             try:
                 Gout = mc.rewire()
                 final = snapshot(Gout)
@@ -287,6 +291,8 @@ class MCMCProp(Prop):
     def request(self, case, obs):
         if "exc" in obs:
             raise ValueError("no trace: the run raised " + obs["exc"])
+        if obs.get("hook_missing"):
+            raise ValueError("MarkovChainMonteCarloRewiring.swap_condition is gone: proposals cannot be observed")
         steps = [{"u0": c["u0"], "v0": c["v0"], "e0s": c["e0s"], "e1s": c["e1s"], "r": c.get("r", "0")} for c in obs["calls"]]
         for st, c, a in zip(steps, obs["calls"], self._afters(obs)):
             if c.get("result") and a is not None:
@@ -424,6 +430,19 @@ class MCMCProp(Prop):
                 if not (tt.get(xa + xb, 0) > 0 and tt.get(xb + xa, 0) > 0):
                     f.append(f"forbidden-pairing: created {t} edge ({a},{b}) joins excess classes {xa},{xb} whose target weight is "
                              f"{tt.get(xa + xb, 'absent')}")
+                    return f
+        # the statement itself, independent of the trace: edges of the returned graph that were not in the input
+        if obs["final"] is not None:
+            init = {(min(a, b), max(a, b)) for a, b, _, _ in case["edges"]}
+            for a, b, t, _ in obs["final"]:
+                if (a, b) in init or t not in names:
+                    continue
+                i = names.index(t)
+                xa, xb = excess(jd[a], i), excess(jd[b], i)
+                tt = target.get(t, {})
+                if not (tt.get(xa + xb, 0) > 0 and tt.get(xb + xa, 0) > 0):
+                    f.append(f"forbidden-pairing: the returned graph has a new {t} edge ({a},{b}) joining excess classes {xa},{xb} "
+                             f"whose target weight is {tt.get(xa + xb, 'absent')}")
                     return f
         return f
 
